@@ -1,5 +1,6 @@
 (* C09 — the 300-byte limit: never exceeded, size() exact. *)
 Require Import Enr.Bytes Enr.Consts Enr.Rlp Enr.SortedMap Enr.Keccak Enr.Record Enr.Update Enr.Spec Enr.Toy.
+Require Import EnrProofs.Thm_Cause.
 Require Import EnrProofs.Thm_Decode EnrProofs.Thm_Update EnrProofs.RefineLemmas EnrProofs.Thm_Refine EnrProofs.Thm_Size.
 Open Scope N_scope.
 
@@ -60,3 +61,23 @@ Print Assumptions build_refusal.
 (* non-vacuity: the toy record is 61 bytes *)
 Example toy_size : match toy_built with Ok r => size r = lenN (encode r) /\ size r <= 300 | _ => False end.
 Proof. vm_compute. split; [reflexivity | discriminate]. Qed.
+
+(* set_seq: refused for size exactly when the record with the requested number and the new signature exceeds
+   300 bytes; otherwise it is exactly that record (any signature length) *)
+Theorem set_seq_outcome : forall (c : crypto) kt r n k sg s,
+  check_keyed_by c kt (with_key (content r) k) k = Ok tt ->
+  sm_get k_id (with_key (content r) k) = Some (enc_string v4) ->
+  sg (signed_payload_of n (with_key (content r) k)) = Some s ->
+  step c kt r (OSetSeq n) k sg =
+  if MAX_ENR_SIZE <? size (cand n (node_id_of (sk_pub k)) (with_key (content r) k) s)
+  then (Err EExceedsMaxSize, r) else (Ok RUnit, cand n (node_id_of (sk_pub k)) (with_key (content r) k) s).
+Proof. exact Thm_Cause.set_seq_outcome. Qed.
+Print Assumptions set_seq_outcome.
+Theorem set_seq_refused_iff : forall (c : crypto) kt r n k sg s,
+  check_keyed_by c kt (with_key (content r) k) k = Ok tt ->
+  sm_get k_id (with_key (content r) k) = Some (enc_string v4) ->
+  sg (signed_payload_of n (with_key (content r) k)) = Some s ->
+  (fst (step c kt r (OSetSeq n) k sg) = Err EExceedsMaxSize <->
+   MAX_ENR_SIZE < size (cand n (node_id_of (sk_pub k)) (with_key (content r) k) s)).
+Proof. exact Thm_Cause.set_seq_refused_iff. Qed.
+Print Assumptions set_seq_refused_iff.
